@@ -117,7 +117,21 @@ def run(args):
             lines = src.split("\n")
             cl = max(i for i, l in enumerate(lines) if "let n" in l) + 1
             casts.append((how, src, cl))
-    creqs = [{"op": "run", "id": i, "a": {"modules": {"main": src, "lib": "pub type Numbers = [int];\nfn main() { }\n"}, "entry": "main", "backend": b}}
+    # the same for object types: every way of not fitting (a field missing, of another type, too many), the type used as it is,
+    # inside an option, inside a list
+    objty = "{ x: int,\n    y: int }"
+    for how, head, ty in (("inline", "", "{ x: int, y: int }"), ("named", "type Point = %s;\n" % objty, "Point"), ("named-far", "type Point = %s;\n" % objty + "\n" * 6, "Point"),
+                          ("imported", "import type Point from lib;\n", "Point")):
+        for wrap, jwrap in (("%s", "%s"), ("?%s", "%s"), ("[%s]", "[%s]")):
+            for fail, val in (("missing", "{\\\"x\\\":1}"), ("wrong-type", "{\\\"x\\\":1,\\\"y\\\":\\\"s\\\"}"), ("extra", "{\\\"x\\\":1,\\\"y\\\":2,\\\"z\\\":3}")):
+                badv = "\"" + (jwrap % val) + "\".parse_json()"
+                t = wrap % ty
+                for form in ("let n: %s = %s;" % (t, badv), "let n = %s as %s;" % (badv, t), "let j: any = %s;\n    let n: %s = j;" % (badv, t)):
+                    src = head + "fn pad() { }\n\nfn main() {\n    println(\"before\");\n    " + form + "\n    println(n);\n}\n"
+                    lines = src.split("\n")
+                    cl = max(i for i, l in enumerate(lines) if "let n" in l) + 1
+                    casts.append((how + " object " + fail + " " + wrap, src, cl))
+    creqs = [{"op": "run", "id": i, "a": {"modules": {"main": src, "lib": "pub type Numbers = [int];\npub type Point = { x: int,\n    y: int };\nfn main() { }\n"}, "entry": "main", "backend": b}}
              for i, (how, src, cl) in enumerate(casts) for b in ("vm", "tree")]
     cres = pool.map(creqs, timeout=30)
     k = 0
@@ -125,11 +139,12 @@ def run(args):
         for b in ("vm", "tree"):
             r = cres[k]
             k += 1
-            if "r" not in r or not r["r"].get("outcome") or "span" not in r["r"]["outcome"]:
-                continue
-            oc = r["r"]["outcome"]
-            if oc["kind"] not in ("uncaught", "fatal"):
-                continue
+            if "r" not in r or not r["r"].get("accepted"):
+                raise C.Machinery("a cast-position program of C08 does not run: %s\n%s" % (str(r)[:300], src[:300]))
+            oc = r["r"].get("outcome") or {}
+            if oc.get("kind") not in ("uncaught", "fatal") or "span" not in oc:
+                # (every one of these values must be refused: C12 decides that; a program which goes through has no position to look at)
+                raise C.Machinery("a cast-position program of C08 is not refused: %s\n%s" % (oc, src[:400]))
             rep.count()
             start = sum(len(l) + 1 for l in src.split("\n")[:cl - 1])
             records.append(rec("interrupt", oc["span"], src, fileok=oc["span"]["f"] == "main", culprit=(start, start + len(src.split("\n")[cl - 1])),
